@@ -31,8 +31,14 @@ pub enum Op {
     BundleTooEarly,
     OwnInvalidBlock,
     ReorgAway,
+    /// like ReorgAway, but the first block of the winning fork spends u1 (by another transaction
+    /// than the pooled ones): the reorganisation adds two blocks, the spender is not the last one
+    ReorgAwaySpendsU1,
+    /// a payment that spends an output created by the current tip block (it becomes invalid when
+    /// that block is unwound)
+    SubmitSpendOfTipOutput,
 }
-pub const OPS: [Op; 12] = [
+pub const OPS: [Op; 14] = [
     Op::SubmitA,
     Op::SubmitAConflict,
     Op::SubmitB2,
@@ -45,6 +51,8 @@ pub const OPS: [Op; 12] = [
     Op::BundleTooEarly,
     Op::OwnInvalidBlock,
     Op::ReorgAway,
+    Op::ReorgAwaySpendsU1,
+    Op::SubmitSpendOfTipOutput,
 ];
 
 struct W {
@@ -181,6 +189,22 @@ fn apply(w: &mut W, op: Op, rep: &mut Report, hist: &[Op]) -> bool {
             }
             true
         }
+        Op::SubmitSpendOfTipOutput => {
+            let tip_id = w.p.tip_id;
+            let mut found = None;
+            for who in [key(1), key(2), key(3)] {
+                if let Some(sl) = w.p.ledger.unspent_of(&who.public).into_iter().find(|s| s.block_id == tip_id && s.amount > 10) {
+                    found = Some((who, sl));
+                    break;
+                }
+            }
+            let Some((who, sl)) = found else { return false };
+            let t = make_tx(&[sl.clone()], &[(who.public, sl.amount)], &who, 160, b"spend-of-tip-output");
+            if let o @ (Outcome::Panicked(_) | Outcome::Stalled) = w.p.submit(t) {
+                rep.violate("abort/submit", o.label(), ctx);
+            }
+            true
+        }
         Op::PeerConfirmsA | Op::PeerSpendsU1 | Op::PeerEmpty => {
             let txs = match op {
                 Op::PeerConfirmsA => vec![tx_a(w, 0)],
@@ -270,15 +294,28 @@ fn apply(w: &mut W, op: Op, rep: &mut Report, hist: &[Op]) -> bool {
             }
             true
         }
-        Op::ReorgAway => {
+        Op::ReorgAway | Op::ReorgAwaySpendsU1 => {
             // two peer blocks on the parent of the tip: the tip's transactions are un-confirmed
             let n = w.p.chain.len();
             if n < 3 {
                 return false;
             }
+            let mut first_txs = vec![];
+            if op == Op::ReorgAwaySpendsU1 {
+                // u1 must be unspent below the fork point and inside the window of the fork's first block
+                let mut l = RefLedger::default();
+                for b in w.p.chain[..n - 1].iter() {
+                    l.apply(&decode_block(b));
+                }
+                let g = w.p.cfg.consensus.genesis_period;
+                if !l.utxo.contains(&w.u1.get_utxoset_key()) || w.u1.block_id + g < n as u64 {
+                    return false;
+                }
+                first_txs.push(make_tx(&[w.u1.clone()], &[(key(3).public, w.u1.amount)], &key(1), 150, b"fork-spends-u1"));
+            }
             w.fork_ctr += 1;
             let salt = 1000 + w.fork_ctr;
-            let b1 = match peer_block(w, vec![], Some(n - 1), salt) {
+            let b1 = match peer_block(w, first_txs, Some(n - 1), salt) {
                 Ok(b) => b,
                 Err(_) => return false,
             };
